@@ -3,7 +3,7 @@ CONSTANTS
   MaxDims = 2
   Lens = {1, 2, 3, 4}
   OneAxisMax = 9
-  LargeN = {169, 171, 400, 1029, 1030, 2000}
+  LargeN = {169, 171, 400, 1029, 1030, 1200, 2000}
   AB_WrongStep = FALSE
   FromSet <- MCFromSet
   LargeSet <- MCLargeSet
